@@ -81,6 +81,32 @@ fn run(line: &str) -> String {
             let ok = if t[0] == "sig.verify_ph" { vk.verify_prehashed(h, Some(&c), &sig).is_ok() } else { vk.verify_prehashed_strict(h, Some(&c), &sig).is_ok() };
             format!("{}", ok as u8)
         }
+        "sig.vk_try_from" => { let b = hex(t[1]); match VerifyingKey::try_from(&b[..]) { Ok(v) => hx(v.as_bytes()), Err(_) => "ERR".into() } }
+        "sig.sk_try_from" => { let b = hex(t[1]); match SigningKey::try_from(&b[..]) { Ok(v) => hx(&v.to_bytes()), Err(_) => "ERR".into() } }
+        "sig.sig_from_slice" => { let b = hex(t[1]); match Signature::from_slice(&b[..]) { Ok(v) => hx(&v.to_bytes()), Err(_) => "ERR".into() } }
+        "sig.esk_from_slice" => { let b = hex(t[1]); match ed25519_dalek::hazmat::ExpandedSecretKey::from_slice(&b[..]) { Ok(_) => "OK".into(), Err(_) => "ERR".into() } }
+        "ed.from_slice" => { let b = hex(t[1]); match CompressedEdwardsY::from_slice(&b[..]) { Ok(v) => hx(v.as_bytes()), Err(_) => "ERR".into() } }
+        "ris.from_slice" => { let b = hex(t[1]); match CompressedRistretto::from_slice(&b[..]) { Ok(v) => hx(v.as_bytes()), Err(_) => "ERR".into() } }
+        "grp.ed" => {
+            // group-trait view of an Edwards point: trait is_torsion_free, into_subgroup.is_some, clear_cofactor, GroupEncoding round trip
+            use group::cofactor::CofactorGroup; use group::GroupEncoding;
+            let p = CompressedEdwardsY(a32(t[1])).decompress().unwrap();
+            let tf = bool::from(CofactorGroup::is_torsion_free(&p)); let sub = bool::from(p.into_subgroup().is_some());
+            let fb = <EdwardsPoint as GroupEncoding>::from_bytes(&a32(t[1]));
+            format!("{} {} {} {}", tf as u8, sub as u8, hx(&group::GroupEncoding::to_bytes(&p.clear_cofactor())), if bool::from(fb.is_some()) { hx(&fb.unwrap().to_bytes()) } else { "NONE".into() })
+        }
+        "grp.ris_from_bytes" => { use group::GroupEncoding; let fb = <RistrettoPoint as GroupEncoding>::from_bytes(&a32(t[1])); if bool::from(fb.is_some()) { hx(&fb.unwrap().to_bytes()) } else { "NONE".into() } }
+        "grp.scalar" => {
+            use group::ff::{Field, PrimeField};
+            let s = Scalar::from_bytes_mod_order(a32(t[1]));
+            let inv = Field::invert(&s);
+            let fr = <Scalar as PrimeField>::from_repr(a32(t[1])); let frv = <Scalar as PrimeField>::from_repr_vartime(a32(t[1]));
+            format!("{} {} {} {}", if bool::from(inv.is_some()) { hx(inv.unwrap().as_bytes()) } else { "NONE".into() }, bool::from(fr.is_some()) as u8, frv.is_some() as u8, bool::from(s.is_odd()) as u8)
+        }
+        "grp.consts" => {
+            use group::ff::PrimeField;
+            format!("{} {} {} {} {}", hx(Scalar::ROOT_OF_UNITY.as_bytes()), hx(Scalar::ROOT_OF_UNITY_INV.as_bytes()), hx(Scalar::TWO_INV.as_bytes()), hx(Scalar::DELTA.as_bytes()), hx(Scalar::MULTIPLICATIVE_GENERATOR.as_bytes()))
+        }
         "sig.keypair_import" => { let r = SigningKey::from_keypair_bytes(&a64(t[1])); format!("{}", r.is_ok() as u8) }
         _ => "UNKNOWN-OP".into(),
     }
